@@ -1,8 +1,38 @@
 import NflowsModel.Core.Driver
-/-! Core/Ops/C01 — driver operations used by the C01 correspondence (executable model, Mathlib-free). -/
-namespace NF
+import NflowsModel.Core.Structure
+/-! Core/Ops/C01 — driver operations for transform-level correspondences (C01, C02, C07, C12, C16, C17, C19):
+`nonlin`, `cdf`, `coupling`, `ar`.
 
-/-- handler for the ops of this property; `none` = not one of mine -/
-def handleC01 (_r : Req) : Option Resp := none
+Common encoding.  s = [kind, container, act];  i = [inverse, tails, K, B, n_or_F_or_S];
+d = cfg doubles as for `spline` followed (after a NaN-free separator is not needed) by hiddenFeatures, hiddenChannels
+given in `i[5]`, `i[6]` as integers;  f = [x, params, (mask | extra element-precision parameters)].
+Response: f = [outputs, per-row log-abs-dets, conditioner input (coupling)], s = [error kind or ""],
+i = flat indices that have alternatives, followed in f by one list per such index. -/
+namespace NF
+variable {α : Type} [Bits α]
+
+def cfgOf (r : Req) : ElCfg :=
+  { container := r.str 1, kind := r.str 0, tails := r.flag 1, K := r.nat 2, ds := r.ds,
+    hiddenFeatures := (r.nat 5).toFloat, hiddenChannels := (r.nat 6).toFloat, act := r.str 2 }
+
+def respOf (t : TResult α) : Resp :=
+  { fs := [bitsOf t.out.toList, bitsOf t.ld, bitsOf t.condIn.toList] ++ t.alts.map (fun a => bitsOf a.2),
+    ints := t.alts.map (fun a => Int.ofNat a.1),
+    strs := [match t.err with | none => "" | some e => e.name] }
+
+def runC01 (o : XOps α) (r : Req) : Option Resp :=
+  let inverse := r.flag 0
+  let B := r.nat 3
+  let x : Array α := (r.fl 0 : List α).toArray
+  let params : Array α := (r.fl 1 : List α).toArray
+  match r.op with
+  | "nonlin" => some (respOf (nonlinApply o (r.str 0) r.ds (r.fl 1) B x inverse))
+  | "cdf" => some (respOf (cdfApply o (cfgOf r) B (r.nat 4) x params inverse))
+  | "coupling" => some (respOf (couplingApply o (cfgOf r) (r.fl 2) B (r.nat 4) x params inverse))
+  | "ar" => some (respOf (arApply o (cfgOf r) B (r.nat 4) x params inverse))
+  | _ => none
+
+def handleC01 (r : Req) : Option Resp :=
+  if r.prec == "f32" then runC01 float32X r else runC01 floatX r
 
 end NF
